@@ -14,6 +14,11 @@ def jobs():
         add(f"chain[{n}]", (IT, "chain"), (RI, "chain"), n_src(n))
         if n:
             add(f"chain[{n}]/close-unadvanced", (IT, "chain"), (RI, "chain"), n_src(n), props=("C04",), close_first=True, faults=False)
+    def mk_fi(ctx, env):
+        s = env.source("a")
+        s.item_kind = "source"          # an (async) iterable of (async) iterables
+        return dict(iargs=[s], rargs=[s])
+    add("chain.from_iterable", (IT, "chain.from_iterable"), (RI, "chain_from_iterable"), mk_fi)
     return J
 
 
